@@ -131,19 +131,32 @@ type pair struct {
 }
 
 // pool lists the distinct (glyph, text) pairs Layout produces for the samples.
-func pool(F font.Layouter) []pair {
+// Characters the font has no glyph for are laid out as glyph 0 (.notdef) with
+// the character as text: simple fonts get two such pairs in low slots (every
+// walk reaches them); composite fonts with one code per glyph cannot tell them
+// apart (the recorded finding encode/code-shared/composite) and keep none.
+func pool(F font.Layouter, k fontKind) []pair {
 	seen := map[pair]bool{}
-	var out []pair
+	var out, missing []pair
 	for _, s := range sampleTexts {
 		seq := F.Layout(nil, 10, s)
 		for _, g := range seq.Seq {
 			p := pair{int(g.GID), g.Text}
-			if g.GID == 0 || seen[p] {
+			if seen[p] {
 				continue
 			}
 			seen[p] = true
+			if g.GID == 0 {
+				if len(missing) < 2 && g.Text != "" {
+					missing = append(missing, p)
+				}
+				continue
+			}
 			out = append(out, p)
 		}
+	}
+	if k.Simple && len(missing) > 0 && len(out) > 3 {
+		out = append(out[:3:3], append(missing, out[3:]...)...)
 	}
 	return out
 }
@@ -332,7 +345,7 @@ func execute(dc *docCase, kinds map[string]fontKind) (rec record, herr error) {
 		if err != nil {
 			return rec, fmt.Errorf("harness: cannot make font %s: %v", label, err)
 		}
-		p := pool(F)
+		p := pool(F, k)
 		if len(p) == 0 {
 			return rec, fmt.Errorf("harness: font %s has an empty pool", label)
 		}
